@@ -1,4 +1,5 @@
 import MahfModel.Model.Conditions
+import MahfModel.Model.ConditionsLoops
 open MahfModel MahfModel.Sexp MahfModel.Conditions
 
 /-! Driver for C10: `agree` = code-shaped model reproduces the implementation's output,
@@ -202,9 +203,10 @@ def isPrefix : List Nat → List Nat → Bool
 
 def caseForm (f : Form) (env : Env) (impl : Sexp) : Verdict :=
   let m := eval env f []
-  let model := Sexp.list [tag "r" [resSexp m.1], tag "log" (m.2.map ofNat)]
+  -- `init` of a connective initialises every operand exactly once (K only: the harness reports the sorted tags)
+  let model := Sexp.list [tag "r" [resSexp m.1], tag "log" (m.2.map ofNat), tag "inits" ((leaves f).map ofNat)]
   let holds := match impl with
-    | .list [.list [.atom "r", r], .list (.atom "log" :: lg)] =>
+    | .list [.list [.atom "r", r], .list (.atom "log" :: lg), _] =>
       match lg.mapM nat? with
       | none => false
       | some log =>
@@ -215,41 +217,86 @@ def caseForm (f : Form) (env : Env) (impl : Sexp) : Verdict :=
           Sexp.beq r (.atom "err") && isPrefix log (leaves f)
     | _ => false
   let cls := match impl with
-    | .list [.list [.atom "r", r], .list (.atom "log" :: lg)] =>
+    | .list [.list [.atom "r", r], .list (.atom "log" :: lg), _] =>
       if (lg.mapM nat?) == some (leaves f) || !(errFree env f) then
         (if Sexp.beq r (.atom "err") then "err" else "wrong-value") else "count"
     | _ => "panic"
   verdict (Sexp.beq model impl) holds cls model
 
-def caseChance (p : UInt64) (words : List Nat) (impl : Sexp) : Verdict :=
-  let b := bernoulliNew (Objective.ofBits p)
-  let model := match randomChanceRun b words.length words with
-    | .ok (rs, rest) => Sexp.list [tag "r" (rs.map ofBool), tag "used" [ofNat (words.length - rest.length)]]
-    | .panic => .atom "panic"
-  -- The property speaks about the probability only, which no single scripted word can refute (that is
-  -- the frequency test's job); the exact word → bool mapping is checked by `agree`. What a single
-  -- evaluation can refute: `p = 1` must fire, `p = 0` must not, a legal `p` must not panic.
-  -- An invalid `p` is not a probability: nothing is demanded of it.
-  let outs : Option (List Bool) := match impl with
-    | .list [.list (.atom "r" :: rs), _] => rs.mapM bool?
-    | _ => none
-  let isZero := Objective.ofBits p == .fin 0
-  let holds := match b, outs with
-    | .invalid, _ => true
-    | .always, some rs => rs.all id
-    | .thr _, some rs => !isZero || rs.all (!·)
-    | _, none => false
-  verdict (Sexp.beq model impl) holds (if outs.isNone then "panic" else "wrong-value") model
+/-- Number of equidistant words of a sweep (`2^64 / 4096 = 2^52` apart). -/
+def sweepN : Nat := 4096
 
+/-- RandomChance on held words. The property speaks about the probability only; it fixes neither which
+generator words fire nor how many are drawn. What every correct implementation must do for EVERY word
+is compared exactly: `p = 0` (and `-0`) never fires, `p = 1` always fires, an invalid `p` (not a
+probability) panics as `gen_bool` documents. For `0 < p < 1` nothing is demanded of a single word. -/
+def caseChance (p : UInt64) (k : Nat) (impl : Sexp) : Verdict :=
+  let b := bernoulliNew (Objective.ofBits p)
+  let isZero := Objective.ofBits p == .fin 0
+  let outs : Option (List Bool) := match impl with
+    | .list (.atom "r" :: rs) => rs.mapM bool?
+    | _ => none
+  let allErr := match impl with
+    | .list (.atom "r" :: rs) => rs.all (Sexp.beq · (.atom "err")) && !rs.isEmpty
+    | _ => false
+  match b with
+  | .invalid =>
+    -- not a probability: the property demands nothing; K expects the documented refusal (panic or Err)
+    verdict (Sexp.beq impl (.atom "panic") || allErr) true "wrong-value" (.atom "panic")
+  | .always =>
+    let ok := match outs with | some rs => rs.all id && rs.length == k | none => false
+    verdict ok ok (if outs.isNone then "panic" else "wrong-value") (tag "r" ((List.replicate k true).map ofBool))
+  | .thr _ =>
+    if isZero then
+      let ok := match outs with | some rs => rs.all (!·) && rs.length == k | none => false
+      verdict ok ok (if outs.isNone then "panic" else "wrong-value") (tag "r" ((List.replicate k false).map ofBool))
+    else
+      let ok := outs.isSome
+      verdict ok ok "panic" (.atom "any")
+
+/-- Sweep over 4096 equidistant words: the fraction that fires is `p`. K: within 2 words (theorem
+`randomChance_sweep`: `⌊m/D⌋` or `⌊m/D⌋+1` for a threshold test, whichever end of the range it fires
+on); O: within 5 sigma + 2 (an implementation that scatters the firing words is still legal). -/
+def caseSweep (p : UInt64) (impl : Sexp) : Verdict :=
+  let b := bernoulliNew (Objective.ofBits p)
+  let pf := Float.ofBits p
+  let n := sweepN.toFloat
+  let count : Option Nat := match impl with
+    | .list [.atom "count", c] => nat? c
+    | _ => none
+  let cls := if count.isNone then "panic" else "frequency"
+  match b with
+  | .invalid => verdict (Sexp.beq impl (.atom "panic")) true cls (.atom "panic")
+  | .always =>
+    let ok := count == some sweepN
+    verdict ok ok cls (tag "count" [ofNat sweepN])
+  | .thr _ =>
+    let expect := pf * n
+    let model := tag "expect" [ofNat expect.round.toUInt64.toNat]
+    match count with
+    | none => verdict false false cls model
+    | some c =>
+      if Objective.ofBits p == .fin 0 then verdict (c == 0) (c == 0) cls model
+      else
+        let d := (c.toFloat - expect).abs
+        verdict (d ≤ 2.0) (d ≤ 5.0 * Float.sqrt (n * pf * (1.0 - pf)) + 2.0) cls model
+
+/-- Real generator: marginal frequency and the frequency of "both fire" among the n/2 disjoint
+consecutive pairs, 5 sigma each (+3 absolute for the pairs, whose expectation can be far below 1). -/
 def caseFreq (p : Float) (n : Nat) (impl : Sexp) : Verdict :=
-  let expect := p * n.toFloat
-  let sigma := Float.sqrt (n.toFloat * p * (1.0 - p))
-  let model := Sexp.list [tag "expect" [ofNat expect.round.toUInt64.toNat], tag "sigma5" [ofNat (5.0 * sigma).ceil.toUInt64.toNat]]
+  let nf := n.toFloat
+  let expect := p * nf
+  let sigma := Float.sqrt (nf * p * (1.0 - p))
+  let expect2 := nf / 2.0 * p * p
+  let sigma2 := Float.sqrt (nf / 2.0 * p * p * (1.0 - p * p))
+  let model := Sexp.list [tag "expect" [ofNat expect.round.toUInt64.toNat], tag "sigma5" [ofNat (5.0 * sigma).ceil.toUInt64.toNat],
+    tag "expect-both" [ofNat expect2.round.toUInt64.toNat], tag "sigma5-both" [ofNat (5.0 * sigma2).ceil.toUInt64.toNat]]
   let holds := match impl with
-    | .list [.atom "count", c] =>
-      match nat? c with
-      | some c => (c.toFloat - expect).abs ≤ 5.0 * sigma + 0.5
-      | none => false
+    | .list [.list [.atom "count", c], .list [.atom "both", b]] =>
+      match nat? c, nat? b with
+      | some c, some b =>
+        (c.toFloat - expect).abs ≤ 5.0 * sigma + 0.5 && (b.toFloat - expect2).abs ≤ 5.0 * sigma2 + 3.0
+      | _, _ => false
     | _ => false
   verdict holds holds "frequency" model
 
@@ -270,6 +317,107 @@ def caseLoop (n step : Nat) (byEvals : Bool) (impl : Sexp) : Verdict :=
     | _ => "count"
   verdict (Sexp.beq model impl) (Sexp.beq spec impl) cls model
 
+/-! Iteration-bounded loops in nests (Model/ConditionsLoops.lean) -/
+
+def optNat (o : Option Nat) : Sexp := match o with | some v => ofNat v | none => .atom "none"
+def optF (o : Option Float) : Sexp := match o with | some v => fxn v | none => .atom "none"
+
+def evSexp : LEvent Float → Sexp
+  | .test id v it pr => .list [.atom "t", ofNat id, ofBool v, ofNat it, optF pr]
+  | .pass tg it => .list [.atom "p", ofNat tg, optNat it]
+
+def nestOut (log : List (LEvent Float)) (it : Option Nat) (pr : Option Float) : Sexp :=
+  .list [tag "res" [.atom "ok"], tag "log" (log.map evSexp), tag "iters" [optNat it], tag "progress" [optF pr]]
+
+mutual
+  def boundsOf : LItem → List (Nat × Nat)
+    | .leaf _ => []
+    | .loop id n b => (id, n) :: boundsOfs b
+    | .scope b => boundsOfs b
+  def boundsOfs : LItems → List (Nat × Nat)
+    | .nil => []
+    | .cons i is => boundsOf i ++ boundsOfs is
+end
+
+/-- What one test event must satisfy in ANY tree (also where loops share a counter): the verdict is
+`value < n` and the progress readable afterwards is `value / n`. -/
+def testEventOk (bounds : List (Nat × Nat)) : Sexp → Bool
+  | .list [.atom "t", id, v, it, pr] =>
+    match nat? id, bool? v, nat? it with
+    | some id, some v, some it =>
+      match bounds.find? (·.1 == id) with
+      | some (_, n) => v == decide (it < n) && Sexp.beq pr (fxn (it.toFloat / n.toFloat))
+      | none => false
+    | _, _, _ => false
+  | .list (.atom "p" :: _) => true
+  | _ => false
+
+def specFinal (is : LItems) : Nat → Option Nat → Option Nat
+  | 0, cur => cur
+  | k + 1, cur => specFinal is k (specRun Nat.toFloat is cur).2
+
+def caseNest (runs : Nat) (pre : Option Nat) (is : LItems) (impl : Sexp) : Verdict :=
+  let r0 : LReg Float := { top := { iters := pre, progress := none }, rest := [] }
+  let model := match lRunTimes Nat.toFloat (maxNs is + 1) is runs r0 [] with
+    | .ok r log => nestOut log r.iters r.progress
+    | .stop .fuel => .atom "model-fuel"
+    | .stop .noCounter => .atom "model-err"
+  let implLog : Option (List Sexp) := match impl with
+    | .list [.list [.atom "res", .atom "ok"], .list (.atom "log" :: lg), _, _] => some lg
+    | _ => none
+  let holds :=
+    if wellScoped is then
+      -- the property: every loop makes exactly n passes, n + 1 tests, progress k/n, the body sees k — the
+      -- state-free specification, once per run; the counter visible at the end is the specified one
+      match impl with
+      | .list [.list [.atom "res", .atom "ok"], .list (.atom "log" :: lg), .list [.atom "iters", it], _] =>
+        Sexp.beq (.list lg) (.list ((specRunTimes Nat.toFloat is runs pre).map evSexp)) &&
+          Sexp.beq it (optNat (specFinal is runs pre))
+      | _ => false
+    else
+      -- loops sharing a counter (mahf: "a Scope is needed for nested loops"): only the less-than-n clause itself
+      match implLog with
+      | some lg => lg.all (testEventOk (boundsOfs is))
+      | none => false
+  let cls := match impl with
+    | .atom "panic" => "panic"
+    | .atom "budget" => "timeout"
+    | .list (.list [.atom "res", .atom "err"] :: _) => "err"
+    | _ => "count"
+  verdict (Sexp.beq model impl) holds cls model
+
+/-! Loop guarded by a composite of `iterations(n)` and `evaluations(m)` built with `&`, `|`, `!` -/
+
+def conn? : Sexp → Option Conn
+  | .atom "and" => some .and
+  | .atom "or" => some .or
+  | .atom "nand" => some .nand
+  | _ => none
+
+def ev2Sexp (e : L2Ev Float) : Sexp :=
+  .list [.atom "t", ofBool e.verdict, ofNat e.it, ofNat e.ev, fxn e.pit, fxn e.pev]
+
+def loopcOut (passes it ev : Nat) (log : List (L2Ev Float)) : Sexp :=
+  .list [tag "res" [.atom "ok"], tag "passes" [ofNat passes], tag "iters" [ofNat it], tag "evals" [ofNat ev],
+         tag "log" (log.map ev2Sexp)]
+
+def caseLoopC (c : Conn) (n m step : Nat) (impl : Sexp) : Verdict :=
+  let bound := max n m + 1
+  let model := match loop2Run Nat.toFloat c n m step (bound + 1) with
+    | some (s, log) => loopcOut s.passes s.it s.ev log
+    | none => .atom "model-fuel"
+  -- property: the first pass count p at which the Boolean combination of (p < n) and (p·step < m) is false
+  -- (searched, not looped); p passes, tests at 0 … p with verdicts and both progress values as specified
+  let spec := match firstStop c n m step bound 0 with
+    | some p => loopcOut p p (p * step) ((List.range' 0 (p + 1)).map (specEv2 Nat.toFloat c n m step))
+    | none => .atom "spec-unbounded"
+  let cls := match impl with
+    | .atom "panic" => "panic"
+    | .atom "budget" => "timeout"
+    | .list (.list [.atom "res", .atom "err"] :: _) => "err"
+    | _ => "count"
+  verdict (Sexp.beq model impl) (Sexp.beq spec impl) cls model
+
 def envOf (os : List Res) : Env := fun i => (os[i]?).getD .err
 
 def c10 (input implOut : Sexp) : Option Verdict :=
@@ -277,6 +425,7 @@ def c10 (input implOut : Sexp) : Option Verdict :=
   | .list [.atom "lt", .atom "f", n, v] => do caseLtFloat (← float? n) (← float? v) implOut
   | .list [.atom "lt", _, n, v] => do caseLtNat (← nat? n) (← nat? v) implOut
   | .list [.atom "every", n, v] => do caseEvery (← nat? n) (← nat? v) implOut
+  | .list [.atom "everyo", n, v] => do caseEvery (← nat? n) (← nat? v) implOut
   | .list [.atom "opt", e, .atom "none", o] => do caseOpt (← float? e) none (← float? o) implOut
   | .list [.atom "opt", e, .list [.atom "some", b], o] => do
     caseOpt (← float? e) (some (← float? b)) (← float? o) implOut
@@ -299,8 +448,15 @@ def c10 (input implOut : Sexp) : Option Verdict :=
   | .list [.atom "form", f, .list (.atom "env" :: os)] => do
     let (g, _) ← parseForm 64 f 0
     caseForm g (envOf (← os.mapM res?)) implOut
-  | .list [.atom "chance", p, .list (.atom "words" :: ws)] => do caseChance (← bits? p) (← ws.mapM nat?) implOut
+  | .list [.atom "chance", p, .list (.atom "words" :: ws)] => do caseChance (← bits? p) ws.length implOut
+  | .list [.atom "sweep", p, _] => do caseSweep (← bits? p) implOut
   | .list [.atom "freq", p, _, n] => do caseFreq (← float? p) (← nat? n) implOut
+  | .list [.atom "nest", runs, pre, .list (.atom "items" :: is)] => do
+    let pre ← match pre with
+      | .atom "none" => some none
+      | p => (nat? p).map some
+    caseNest (← nat? runs) pre (← parseLItems 32 is) implOut
+  | .list [.atom "loopc", c, n, m, st] => do caseLoopC (← conn? c) (← nat? n) (← nat? m) (← nat? st) implOut
   | .list [.atom "loop", .atom "i", n] => do caseLoop (← nat? n) 1 false implOut
   | .list [.atom "loop", .atom "e", n, s] => do caseLoop (← nat? n) (← nat? s) true implOut
   | _ => none
